@@ -46,6 +46,7 @@ type Case struct {
 	Hi       int    `json:"expected_line_max"`
 	MaxLine  int    `json:"lines_of_input"`
 	EOL      string `json:"line_ends"` // lf | crlf | cr
+	End      string `json:"file_end"`  // newline | none | several
 }
 
 func maxLine(text string) int { return 1 + strings.Count(text, "\n") }
@@ -63,15 +64,20 @@ func withEOL(text, eol string) string {
 
 var eols = []string{"lf", "crlf", "cr"}
 
+// how the file ends after its last line: one newline, none, several
+var ends = []struct{ name, text string }{{"newline", "\n"}, {"none", ""}, {"several", "\n\n\n"}}
+
 // buildCases inserts every fault at every line of every generated file.
 func buildCases(ctx *core.Ctx) (valid []c05.Input, cases []Case) {
-	files := c05.GeneratedFiles(ctx.Pick(120, 1200), ctx.Seed)
+	files := c05.GeneratedFiles(ctx.Pick(60, 900), ctx.Seed)
 	for fi, vf := range files {
 		name := fmt.Sprintf("pkg%d/file_%d.soy", fi%7, fi)
 		for _, eol := range eols {
-			v := c05.FileInput("c19/valid-"+eol, withEOL(vf.Text(), eol))
-			v.Name = name
-			valid = append(valid, v)
+			for _, e := range ends {
+				v := c05.FileInput("c19/valid-"+eol+"-"+e.name, withEOL(strings.Join(vf.Lines, "\n")+e.text, eol))
+				v.Name = name
+				valid = append(valid, v)
+			}
 		}
 		n := len(vf.Lines)
 		for _, f := range faults {
@@ -79,7 +85,6 @@ func buildCases(ctx *core.Ctx) (valid []c05.Input, cases []Case) {
 				lines := append([]string(nil), vf.Lines[:k-1]...)
 				lines = append(lines, f.Line)
 				lines = append(lines, vf.Lines[k-1:]...)
-				text := strings.Join(lines, "\n") + "\n"
 				rest := strings.Join(vf.Lines[k-1:], "\n")
 				if (f.Kind == "unterminated-block-comment" || f.Kind == "unterminated-soydoc") && strings.Contains(rest, "*/") {
 					continue // a later "*/" terminates the construct: not the intended fault
@@ -87,13 +92,17 @@ func buildCases(ctx *core.Ctx) (valid []c05.Input, cases []Case) {
 				if f.Kind == "unterminated-string" && strings.Contains(rest, "'") {
 					continue
 				}
-				c := Case{Name: name, Text: text, Fault: f.Kind, FaultSrc: f.Line, Line: k, Lo: k, Hi: k, MaxLine: maxLine(text), EOL: "lf"}
-				if f.Open {
-					c.Hi = c.MaxLine
-				}
-				for _, eol := range eols {
-					c.EOL, c.Text = eol, withEOL(text, eol)
-					cases = append(cases, c)
+				// k = n+1 makes the fault the LAST line; with file end "none" nothing follows it
+				for _, e := range ends {
+					text := strings.Join(lines, "\n") + e.text
+					c := Case{Name: name, Text: text, Fault: f.Kind, FaultSrc: f.Line, Line: k, Lo: k, Hi: k, MaxLine: maxLine(text), EOL: "lf", End: e.name}
+					if f.Open {
+						c.Hi = c.MaxLine
+					}
+					for _, eol := range eols {
+						c.EOL, c.Text = eol, withEOL(text, eol)
+						cases = append(cases, c)
+					}
 				}
 			}
 		}
@@ -104,9 +113,11 @@ func buildCases(ctx *core.Ctx) (valid []c05.Input, cases []Case) {
 				tl = i + 1
 			}
 		}
-		text := strings.Join(vf.Lines[:n-1], "\n") + "\n"
-		for _, eol := range eols {
-			cases = append(cases, Case{Name: name, Text: withEOL(text, eol), Fault: "missing-close-template", FaultSrc: "", Line: tl, Lo: tl, Hi: maxLine(text), MaxLine: maxLine(text), EOL: eol})
+		for _, e := range ends {
+			text := strings.Join(vf.Lines[:n-1], "\n") + e.text
+			for _, eol := range eols {
+				cases = append(cases, Case{Name: name, Text: withEOL(text, eol), Fault: "missing-close-template", FaultSrc: "", Line: tl, Lo: tl, Hi: maxLine(text), MaxLine: maxLine(text), EOL: eol, End: e.name})
+			}
 		}
 	}
 	return
@@ -178,6 +189,19 @@ type parseReplay struct {
 	Observed *c05.Result `json:"observed"`
 }
 
+// ParseCaseInputs gives the valid files and the faulty files of the parse half
+// as plain inputs (C18 parses them too and watches the goroutines).
+func ParseCaseInputs(ctx *core.Ctx) []c05.Input {
+	valid, cases := buildCases(ctx)
+	inputs := append([]c05.Input(nil), valid...)
+	for i := range cases {
+		in := c05.FileInput("c19/"+cases[i].Fault, cases[i].Text)
+		in.Name = cases[i].Name
+		inputs = append(inputs, in)
+	}
+	return inputs
+}
+
 func runParseHalf(ctx *core.Ctx) {
 	valid, cases := buildCases(ctx)
 	inputs := append([]c05.Input(nil), valid...)
@@ -195,13 +219,13 @@ func runParseHalf(ctx *core.Ctx) {
 	skipEOL := map[string]bool{}
 	for i := range valid {
 		if results[i].Outcome != "tree" {
-			if strings.HasSuffix(valid[i].Family, "-lf") {
+			if strings.HasPrefix(valid[i].Family, "c19/valid-lf-") {
 				bad++
 				if bad <= 3 {
 					ctx.ToolError("generated file is not valid Soy: %s: %s", clip(string(valid[i].Text), 200), results[i].Err)
 				}
 			} else {
-				skipEOL[valid[i].Name+"|"+strings.TrimPrefix(valid[i].Family, "c19/valid-")] = true
+				skipEOL[valid[i].Name+"|"+strings.TrimPrefix(valid[i].Family, "c19/valid-")] = true // name|eol-end
 			}
 		}
 	}
@@ -212,7 +236,7 @@ func runParseHalf(ctx *core.Ctx) {
 	for ci := range cases {
 		c := &cases[ci]
 		r := &results[len(valid)+ci]
-		if skipEOL[c.Name+"|"+c.EOL] {
+		if skipEOL[c.Name+"|"+c.EOL+"-"+c.End] {
 			notJudged++
 			continue
 		}
@@ -227,7 +251,7 @@ func runParseHalf(ctx *core.Ctx) {
 		}
 		judged++
 		perFault[c.Fault]++
-		perEOL[c.EOL]++
+		perEOL[c.EOL+"/"+c.End]++
 		ctx.Distinct(c.Fault + "|" + strconv.Itoa(c.Line) + "|" + c.Text)
 		if ci%997 == 0 {
 			ctx.Sample(map[string]interface{}{"fault": c.Fault, "line": c.Line, "file": c.Name, "reported_line": r.Line, "err": clip(r.Err, 160)})
